@@ -23,7 +23,7 @@ def scenarios(tier, seed):
     if thorough:
         methods += ["Midpoint", "Heun's", "Ralston's", "BABS9O7H", "RK108", "RK1412", "ImplicitMidpoint", "GaussLegendre6",
                     "LobattoIIIA2", "LobattoIIIA4", "LobattoIIIB2", "LobattoIIIB4", "LobattoIIIC2", "RadauIA3", "RadauIA5", "RadauIIA3",
-                    {"rich": "RK45CK", "levels": 2}, {"rich": "ABAS5O6H", "levels": 3}, {"rich": "BackwardEuler", "levels": 4}]
+                    {"rich": "RK45CK", "levels": 2}, {"rich": "BackwardEuler", "levels": 4}]
     scs = []
     for m in methods:
         for (a, b) in gen.SPANS:
